@@ -35,7 +35,7 @@ WORLD_INFO = {'real': ['RoundRobinPolicy, DCAwareRoundRobinPolicy, WhiteListRoun
 ASSUMPTIONS = ['populate(hosts) makes every given host live (that is how Cluster.add_execution_profile delivers down hosts too)',
                'which n hosts of a remote dc are used is the policy\'s choice; the oracle checks count, membership and agreement with distance()',
                'implicit local_dc: contact points lie in one datacenter (documented requirement)']
-REQUIRED_PROBES = ['dc_relocation', 'profile_added_at_runtime', 'populate_interleaved_dcs', 'plan_during_event', 'remote_dc_used',
+REQUIRED_PROBES = ['concurrent_membership_events', 'dc_relocation', 'profile_added_at_runtime', 'populate_interleaved_dcs', 'plan_during_event', 'remote_dc_used',
                    'implicit_local_dc_chosen']
 
 LOCAL, REMOTE, IGNORED = 0, 1, -1
@@ -94,6 +94,11 @@ def gen_plan(rng, tier):
               'how': rng.choice(['rst', 'rst', 'blackhole']), 'announce': rng.choice([None, 0.01, 0.2])}
         if ev['kind'] == 'add_profile':
             ev['policy'] = gen_policy(rng, n, dcs)
+        elif world == 'lbp' and ev['kind'] in ('down', 'up', 'remove', 'add') and n > 1 and rng.random() < 0.25:
+            # a second membership event, for another host, delivered by another thread at the same time (the Cluster handles the
+            # events of different hosts on different executor threads)
+            other = rng.choice([x for x in range(n) if x != ev['node']])
+            ev['with'] = {'kind': rng.choice(['down', 'up', 'remove', 'add']), 'node': other}
         events.append(ev)
     return {'world': world, 'cluster': {'nodes': nodes, 'keyspaces': {'ks1': {'class': 'org.apache.cassandra.locator.SimpleStrategy',
                                                                                  'replication_factor': '2'}}},
@@ -132,6 +137,7 @@ class PolicyUnderTest(object):
         self.sim = sim
         self.log = []            # (sim seq, op, payload)
         self.inflight = 0
+        self.open_idx = []
         self.base, self.excluded, self.target = base_of(spec)
         self.policy = self._build(spec, cpol, outer=True)
 
@@ -146,39 +152,39 @@ class PolicyUnderTest(object):
                 def populate(self, cluster, hosts):
                     hosts = list(hosts)
                     contact = [str(getattr(e, 'address', e)) for e in getattr(cluster, 'endpoints_resolved', [])]
-                    put._enter('populate', ([hinfo(h) for h in hosts], contact))
+                    _i = put._enter('populate', ([hinfo(h) for h in hosts], contact))
                     try:
                         return cls.populate(self, cluster, hosts)
                     finally:
-                        put.inflight -= 1
+                        put._exit(_i)
 
                 def on_up(self, host):
-                    put._enter('up', hinfo(host))
+                    _i = put._enter('up', hinfo(host))
                     try:
                         return cls.on_up(self, host)
                     finally:
-                        put.inflight -= 1
+                        put._exit(_i)
 
                 def on_down(self, host):
-                    put._enter('down', hinfo(host))
+                    _i = put._enter('down', hinfo(host))
                     try:
                         return cls.on_down(self, host)
                     finally:
-                        put.inflight -= 1
+                        put._exit(_i)
 
                 def on_add(self, host):
-                    put._enter('add', hinfo(host))
+                    _i = put._enter('add', hinfo(host))
                     try:
                         return cls.on_add(self, host)
                     finally:
-                        put.inflight -= 1
+                        put._exit(_i)
 
                 def on_remove(self, host):
-                    put._enter('remove', hinfo(host))
+                    _i = put._enter('remove', hinfo(host))
                     try:
                         return cls.on_remove(self, host)
                     finally:
-                        put.inflight -= 1
+                        put._exit(_i)
             Rec.__name__ = 'Rec' + cls.__name__
             return Rec
         k = spec['kind']
@@ -201,6 +207,17 @@ class PolicyUnderTest(object):
     def _enter(self, op, payload):
         self.inflight += 1
         self.log.append((self.sim.nlog, op, payload))
+        idx = len(self.log) - 1
+        self.open_idx.append(idx)
+        return idx
+
+    def _exit(self, idx):
+        self.inflight -= 1
+        self.open_idx.remove(idx)
+
+    def reach_back(self):
+        """How many log entries back the oldest call still executing lies (calls of several deliverer threads may overlap)."""
+        return (len(self.log) - min(self.open_idx)) if self.open_idx else 0
 
     # ---- reference model: state after the first k log entries
     def state_at(self, k):
@@ -435,7 +452,7 @@ def planner_loop(sim, puts, records, stop, sleep, now, times, burst, gap, lazy, 
                 break
             put = puts[i % len(puts)]
             i += 1
-            k0, f0 = len(put.log), put.inflight
+            k0, f0 = len(put.log), put.reach_back()
             plan, exc = [], None
             try:
                 q = _Q(put.target) if put.target is not None else None
@@ -566,10 +583,25 @@ def run_lbp(plan, seed, choices):
         for ei, ev in enumerate(plan['events']):
             sleep(max(0.0, ev['at'] - t_prev))
             t_prev = ev['at']
-            i, k = ev['node'], ev['kind']
-            h = hosts.get(i)
             for g in gates:
                 g.set()
+            helper = None
+            if ev.get('with'):
+                sim.probe('concurrent_membership_events')
+                helper = SimThread(target=apply_event, name='deliverer%d' % ei, args=(ev['with'], ei))
+                helper.start()
+            apply_event(ev, ei)
+            if helper is not None:
+                helper.join()
+            check_all('ev%d' % ei)
+        stop[0] = True
+        for g in gates:
+            g.set()
+
+    def apply_event(ev, ei):
+        if True:
+            i, k = ev['node'], ev['kind']
+            h = hosts.get(i)
             if k == 'down' and h is not None and h.is_up:
                 h.set_down()
                 deliver('on_down', h)
@@ -591,10 +623,6 @@ def run_lbp(plan, seed, choices):
                 populate_like_add_profile(put)
                 puts.append(put)
                 sim.probe('profile_added_at_runtime')
-            check_all('ev%d' % ei)
-        stop[0] = True
-        for g in gates:
-            g.set()
 
     if plan.get('line_p') or plan.get('points'):
         sim.enable_line_preemption(line_funcs(cpol), p=plan.get('line_p', 0), points=plan.get('points', 0), est_lines=3000)
